@@ -113,7 +113,7 @@ Definition c01_queues (d : dump) : string :=
   else "".
 
 Definition c01_dump (d : dump) : string :=
-  if negb (Nat.eqb (d_errors d) 0) then "C01:structure"
+  if negb (Nat.eqb (Nat.modulo (d_errors d) 1000) 0) then "C01:structure"
   else first_nonempty (map (c01_op d) (d_ops d) ++ [c01_tasks_uniform d; c01_workers d; c01_queues d]).
 
 (* a Synchronize response only tells a worker to execute its currently assigned, uncompleted task *)
@@ -179,8 +179,11 @@ Definition c03_exec (pre post : dump) (a : exec_args) : string :=
     end
   else "".
 
-(* ---- C04 (state part): no task queued while an undrained worker of its queue waits ----- *)
+(* ---- C04 (state part): no task queued while an undrained worker of its queue waits;
+   the hook found every invocation heap in heap order (d_errors counts 1000 per
+   heap-order violation: a key changed without the heap being fixed) ----- *)
 Definition c04_dump (d : dump) : string :=
+  if negb (Nat.eqb (Nat.div (d_errors d) 1000) 0) then "C04:heap-order-violated" else
   first_nonempty (map (fun '(pk, q) =>
     let k := mkSK pk (ds_sc q) in
     if existsb (fun i => negb (Nat.eqb (List.length (di_qops i)) 0)) (ds_invs q)
